@@ -49,6 +49,8 @@ def build_node_ext(node, objs, notes=None):
     for kk, r in zip(node['keys'], node['items']):
       d[leaves.dec(kk)] = recipes.deref(r, objs)
     return d
+  if k == 'holder':
+    return things.DictObj(**{n: recipes.deref(r, objs) for n, r in node['attrs'].items()})
   if k == 'set':
     return {leaves.dec(v) for v in node['items']}
   if k == 'fset':
@@ -143,6 +145,8 @@ def dag(draw, *, max_nodes=12, leaf_profile='plain', kinds=None, p_alias=0.55,
       kw = {'a': ref()} if draw(st.booleans()) else {}
       node = {'k': 'B', 'bt': draw(st.sampled_from(list(bts))), 'fn': {'kind': 'sym', 'name': 'things:po2'},
               'pos': pos, 'kw': kw, 'edits': []}
+      if tags and draw(st.booleans()):
+        node['tags'] = [[draw(st.sampled_from([0, 1, 'a'])), draw(st.sampled_from(['TagA', 'TagB', 'TagX']))]]
     elif kind == 'Bdc':
       kw = {}
       for pn in ('u', 'v', 'w'):
@@ -220,6 +224,8 @@ def dag(draw, *, max_nodes=12, leaf_profile='plain', kinds=None, p_alias=0.55,
       hs = leaves.leaf('hashable_ser')
       items = draw(st.lists(hs, max_size=4, unique_by=lambda k: _hash_key(leaves.dec(k))))
       node = {'k': kind, 'items': items}
+    elif kind == 'holder':
+      node = {'k': 'holder', 'attrs': {n: ref() for n in draw(st.lists(st.sampled_from(['inner', 'other']), unique=True, min_size=1))}}
     elif kind == 'ltuple':
       node = {'k': 'tuple', 'items': [{'leaf': draw(leaf_st)} for _ in range(draw(st.integers(1, 3)))]}
     elif kind == 'ntuple':
